@@ -134,6 +134,16 @@ class ClassModel:
                     raise Unsupported(f"{self.where}: truth of {member}: its value is not a literal") from err
         raise Unsupported(f"{self.where}: truth of {member}: no such member")
 
+    def int_enum_member(self, cname: str, mname: str) -> int | None:
+        """The integer a member of a modelled IntEnum / IntFlag is (None for any other class or a non-literal value)."""
+        c = self.classes.get(cname)
+        if c is None or not any(ast.unparse(b).split(".")[-1] in ("IntEnum", "IntFlag") for b in c.bases):
+            return None
+        for n in c.body:
+            if isinstance(n, ast.Assign) and isinstance(n.targets[0], ast.Name) and n.targets[0].id == mname and isinstance(n.value, ast.Constant) and isinstance(n.value.value, int):
+                return n.value.value
+        return None
+
     def set_class_attr(self, cname: str, attr: str, value: Any) -> None:
         """``cls.attr = value``: stored on that class, found by its instances and subclasses through the MRO."""
         if not hasattr(self, "_class_attrs"):
